@@ -10,6 +10,7 @@ import (
 	"encoding/json"
 	"flag"
 	"fmt"
+	"sort"
 	"strings"
 	"sync"
 	"time"
@@ -93,24 +94,40 @@ type cyOut struct {
 	PanicMsg  string     `json:"panicMsg,omitempty"`
 	CfgBodyOK []bool     `json:"cfgBodyOK"`
 	Listed    bool       `json:"listed"`
+	// the published global scrape status after the cycle (single replica runs)
+	Global []cyGlobal `json:"global"`
+	// every extra-config POST carried the coordinator's extra config
+	ExtraBodyOK bool `json:"extraBodyOK"`
+}
+
+type cyGlobal struct {
+	T      uint64 `json:"t"`
+	Health string `json:"health"`
+	Series int64  `json:"series"`
+	Total  int64  `json:"total"`
+	Times  uint64 `json:"times"`
+	State  string `json:"state"`
+	Shards []int  `json:"shards"`
 }
 
 const (
-	cyCoordHash = "coordinator-hash"
-	cyRaw       = "global:\n  scrape_interval: 15s\n# raw content of the coordinator\n"
-	cyIdleUnit  = time.Hour
+	cyCoordHash  = "coordinator-hash"
+	cyRaw        = "global:\n  scrape_interval: 15s\n# raw content of the coordinator\n"
+	cyIdleUnit   = time.Hour
+	cyStopReason = "maintenance window (scripted)"
 )
 
 // scripted shard
 type cyShardRT struct {
-	mu      sync.Mutex
-	in      *cyShard
-	reqs    []string
-	post    cyPost
-	cfgOK   bool
-	rtCalls int
-	pushed  bool
-	now     time.Time
+	mu       sync.Mutex
+	in       *cyShard
+	reqs     []string
+	post     cyPost
+	cfgOK    bool
+	rtCalls  int
+	pushed   bool
+	now      time.Time
+	extraBad bool
 }
 
 func (s *cyShardRT) get(url string, ret interface{}) error {
@@ -180,6 +197,10 @@ func (s *cyShardRT) postReq(url string, req interface{}, ret interface{}) error 
 		return nil
 	case strings.HasSuffix(url, "/api/v1/status/extra_config"):
 		s.reqs = append(s.reqs, "extra")
+		var e prom.ExtraConfig
+		if err := copyJSON(&e, req); err != nil || e.StopScrapeReason != cyStopReason {
+			s.extraBad = true
+		}
 		return nil
 	case strings.HasSuffix(url, "/api/v1/shard/targets/"):
 		s.reqs = append(s.reqs, "targets")
@@ -324,8 +345,11 @@ func buildManagers(reps []cyReplica, now time.Time) []*cyManager {
 func collectOuts(ms []*cyManager, panicked bool, msg string) []cyOut {
 	outs := make([]cyOut, len(ms))
 	for ri, m := range ms {
-		o := cyOut{Panic: panicked, PanicMsg: msg, Scales: append([]int32{}, m.scales...), Listed: m.listed}
+		o := cyOut{Panic: panicked, PanicMsg: msg, Scales: append([]int32{}, m.scales...), Listed: m.listed, ExtraBodyOK: true, Global: []cyGlobal{}}
 		for _, s := range m.shards {
+			if s.extraBad {
+				o.ExtraBodyOK = false
+			}
 			o.Reqs = append(o.Reqs, append([]string{}, s.reqs...))
 			o.Posts = append(o.Posts, s.post)
 			o.CfgBodyOK = append(o.CfgBodyOK, s.cfgOK)
@@ -367,7 +391,7 @@ func runCycle(ci *cyInput) []cyOut {
 			ScrapeTimes: e.Times,
 		}
 	}
-	cfg := &prom.ConfigInfo{RawContent: []byte(cyRaw), ConfigHash: cyCoordHash, ExtraConfig: &prom.ExtraConfig{}}
+	cfg := &prom.ConfigInfo{RawContent: []byte(cyRaw), ConfigHash: cyCoordHash, ExtraConfig: &prom.ExtraConfig{StopScrapeReason: cyStopReason}}
 
 	c := coordinator.NewCoordinator(&coordinator.Option{
 		MaxHeadSeries:    ci.Opts.MaxHead,
@@ -401,6 +425,22 @@ func runCycle(ci *cyInput) []cyOut {
 	}()
 
 	outs := collectOuts(rm.ms, panicked, msg)
+	if len(rm.ms) == 1 {
+		g := []cyGlobal{}
+		for h, st := range c.LastGlobalScrapeStatus() {
+			x := cyGlobal{T: h, Health: string(st.Health), Series: st.Series, Total: st.TotalSeries, Times: st.ScrapeTimes, State: st.TargetState, Shards: []int{}}
+			for _, id := range st.Shards {
+				var r, i int
+				if _, err := fmt.Sscanf(id, "r%d-shard-%d", &r, &i); err == nil {
+					x.Shards = append(x.Shards, i+1)
+				}
+			}
+			sort.Ints(x.Shards)
+			g = append(g, x)
+		}
+		sort.Slice(g, func(a, b int) bool { return g[a].T < g[b].T })
+		outs[0].Global = g
+	}
 	if len(ci.Replicas2) > 0 {
 		// a second cycle of the same coordinator: same explorer objects, new shard scripts
 		rm.ms = buildManagers(ci.Replicas2, now)
